@@ -34,8 +34,8 @@ Theorem C08_sound : forall lhash kw ch code atok t now d i c,
   (exists exp iat, assoc (PS "exp") d = Some (VInt exp) /\ assoc (PS "iat") d = Some (VInt iat) /\
                    (now - eff_skew kw <= exp)%Z /\ (iat <= now + eff_skew kw)%Z /\
                    (now - eff_skew kw <= iat + eff_storage kw)%Z /\ (iat <= exp)%Z) /\
-  (* 6 a nonce claim, if present, equals the nonce argument *)
-  (forall n v, kw_nonce kw = Some n -> assoc (PS "nonce") d = Some v -> v = VStr n) /\
+  (* 6 the nonce argument, when given, is present in the token and equal *)
+  (forall n, kw_nonce kw = Some n -> assoc (PS "nonce") d = Some (VStr n)) /\
   (* 7 delivered by the authorization endpoint with a code / access token: c_hash / at_hash match *)
   (ch = true -> t_alg t <> PS "none" ->
      (forall x, code = Some x -> assoc (PS "c_hash") d = Some (VStr (lhash (hash_bits (t_alg t)) x))) /\
@@ -77,7 +77,8 @@ Theorem C08_token_service : forall lhash c st r now c' stored,
        exists t vd n sub, r_idt r = Some t /\ v = VDict vd /\
          verify_id_token lhash (svc_kwargs (cl_cfg c)) false None None t now = Ok vd /\
          assoc (PS "nonce") vd = Some (VStr n) /\ assoc n (cl_map c) = Some st /\
-         assoc (PS "sub") vd = Some (VStr sub) /\ cl_map c' = aset sub st (cl_map c)) /\
+         assoc (PS "sub") vd = Some (VStr sub) /\ cl_map c' = aset sub st (cl_map c) /\
+         sub_clash (cl_db c) (cl_map c) st sub = false) /\
     (assoc (verified_name (PS "id_token")) stored = None -> cl_map c' = cl_map c).
 Proof. exact step_token_accept. Qed.
 Print Assumptions C08_token_service.
@@ -103,27 +104,23 @@ Theorem C08_reject_stores_nothing : forall lhash w o w' out,
 Proof. exact step_reject. Qed.
 Print Assumptions C08_reject_stores_nothing.
 
-(* With a registration response naming the ID-token signing algorithm, only that algorithm (or, when
-   explicitly allowed, none) is accepted by the authorization service. *)
-Theorem C08_expected_alg_partial : forall lhash c r now c' stored v a,
+(* The ID-token signing algorithm the client registered - or, for a statically registered client, the one it is
+   configured to use (id_token_signed_response_alg, default RS256) - is the only one the authorization service
+   accepts (besides none, when explicitly allowed). *)
+Theorem C08_expected_alg : forall lhash c r now c' stored v a,
   step_authz lhash c r now = (c', Ok stored) -> has_key (PS "error") stored = false ->
   assoc (verified_name (PS "id_token")) stored = Some v ->
-  cf_reg_sigalg (cl_cfg c) = Some a -> a <> [] ->
+  eff_sigalg (cl_cfg c) = Some a -> a <> [] ->
   exists t, r_idt r = Some t /\ (t_alg t = a \/ t_alg t = PS "none").
 Proof. exact service_expected_alg. Qed.
-Print Assumptions C08_expected_alg_partial.
+Print Assumptions C08_expected_alg.
 
-(* FULL STATEMENT (false of the code as it is): "the algorithm the client is configured to use
-   (id_token_signed_response_alg) is enforced".  A statically registered client has an empty
-   registration_response, so no expected algorithm reaches verify(): *)
-Example C08_expected_alg_refuted :
+(* a statically registered client (no registration response) configured for RS256 refuses an ES256 token of
+   the issuer *)
+Example C08_expected_alg_static :
   let c := ex_two_flows (ex_cfg None (Some (PS "RS256")) false) in
-  cf_usage_sigalg (cl_cfg c) = Some (PS "RS256") /\
-  t_alg (ex_tok_es (PS "N1")) = PS "ES256" /\
-  exists c' stored vd,
-    step_authz ex_lhash c (ex_authz_resp (PS "S1") (Some (ex_tok_es (PS "N1")))) ex_now = (c', Ok stored) /\
-    assoc (verified_name (PS "id_token")) stored = Some (VDict vd).
-Proof. vm_compute. repeat split. do 3 eexists. split; reflexivity. Qed.
+  step_authz ex_lhash c (ex_authz_resp (PS "S1") (Some (ex_tok_es (PS "N1")))) ex_now = (c, Err E_SignerAlgError).
+Proof. vm_compute. reflexivity. Qed.
 
 (* FULL STATEMENT (false): "delivered with a code from the authorization endpoint => matching c_hash".
    With allow_sign_alg_none an unsigned token is accepted with a code and without any c_hash (clause 7 of
@@ -136,15 +133,14 @@ Example C08_unsigned_hash_refuted :
     assoc (verified_name (PS "id_token")) stored = Some (VDict vd) /\ assoc (PS "c_hash") vd = None.
 Proof. vm_compute. do 3 eexists. repeat split; reflexivity. Qed.
 
-(* Remark (message API only): IdToken.verify(nonce = N) accepts a token that has no nonce claim; the service
-   layer closes this (C08_authorization_service, C08_token_service). *)
-Example C08_msgapi_nonce_absent_refuted :
+(* IdToken.verify(nonce = N) refuses a token that has no nonce claim *)
+Example C08_msgapi_nonce_absent_refused :
   let kw := mkKw (Some ex_iss) (Some ex_cid) None None false (Some 0%Z) None false (Some (PS "N1")) ex_jar in
   let t := mkTok (PS "RS256") (Some (PS "r1")) (Some 0%nat)
                  [(PS "iss", VStr ex_iss); (PS "sub", VStr (PS "diana")); (PS "aud", VList [VStr ex_cid]);
                   (PS "exp", VInt 1700000300); (PS "iat", VInt 1699999995)] in
-  exists d, verify_id_token ex_lhash kw false None None t ex_now = Ok d /\ assoc (PS "nonce") d = None.
-Proof. vm_compute. eexists. split; reflexivity. Qed.
+  verify_id_token ex_lhash kw false None None t ex_now = Err E_MissingRequiredAttribute.
+Proof. vm_compute. reflexivity. Qed.
 
 (* Unforgeability (symbolic, Lib/Crypto.v): if no key of the jar is ever published, the signature / MAC of
    an accepted signed token is a term the honest parties published. *)
